@@ -131,11 +131,11 @@ def run_case(ctx, mr, case):
     except Exception as ex:
         impl, ierr = None, pyenv.errname(ex)
     if out.startswith('e:'):
-        if ierr != out[2:] and not (ierr == 'RecursionError'):
+        if ierr != out[2:]:
             ctx.diff('corr', 'romfs-walk-model', dict(case, mutated=mutated), out, ierr or 'a tree', 'RomFS walk: Coq model raises, implementation does not agree')
     else:
         model = tree_of_model(out)
-        if ierr is not None and ierr != 'RecursionError':
+        if ierr is not None:
             ctx.diff('corr', 'romfs-walk-model', dict(case, mutated=mutated), 'a tree', ierr, 'RomFS walk: implementation raises, Coq model returns a tree')
         elif ierr is None and model != impl:
             ctx.diff('corr', 'romfs-walk-model', dict(case, mutated=mutated), str(model)[:200], str(impl)[:200], 'RomFS walk: trees differ')
@@ -164,6 +164,8 @@ def run_case(ctx, mr, case):
         for p in paths[:25]:
             kind, val = flat[p]
             variants = [p, '.' + p if p != '/' else '.', p.lstrip('/') or '/']
+            # spellings a path library leaves to the file system: repeated and trailing separators, the empty path for the root
+            variants += ['/' + p, p.replace('/', '//'), p + '/' if kind == 'dir' else p] + ([''] if p == '/' else [])
             if case['ci']:
                 variants += [p.upper(), p.lower(), p.swapcase()]
             for v in variants:
@@ -190,7 +192,11 @@ def run_case(ctx, mr, case):
                     except Exception as ex:
                         ctx.diff('oracle', 'romfs-open-dir', dict(case, path=v), 'RomFSIsADirectoryError', pyenv.errname(ex), 'wrong error opening a directory')
                 else:
-                    f = r.openbin(v)
+                    try:
+                        f = r.openbin(v)
+                    except Exception as ex:
+                        ctx.diff('oracle', 'romfs-open-raises-file', dict(case, path=v), 'a file', pyenv.errname(ex), f'openbin({v!r}) raised')
+                        continue
 
                     def fail(sig, what, expected, observed, v=v):
                         ctx.diff('oracle', 'romfs-file:' + sig, dict(case, path=v), str(expected)[:80], str(observed)[:80], f'RomFS file {v!r}: {what}')
@@ -205,12 +211,12 @@ def run_case(ctx, mr, case):
         files_ = [p for p, (k, _) in flat.items() if k == 'file']
         for t in range(6):
             base = rng.choice([p for p, (k, _) in flat.items() if k == 'dir'])
-            missing = base.rstrip('/') + '/' + 'nope' + str(rng.randrange(1000))
+            missing = base.rstrip('/') + rng.choice(['/', '/', '//']) + 'nope' + str(rng.randrange(1000))
             if t >= 4:
                 if not files_:
                     continue
                 # a path that continues below a FILE names nothing either
-                missing = rng.choice(files_) + '/' + rng.choice(['x', 'nope', '0'])
+                missing = rng.choice(files_) + rng.choice(['/', '//']) + rng.choice(['x', 'nope', '0'])
             for call in (r.getinfo, r.openbin, r.listdir):
                 try:
                     call(missing)
@@ -294,6 +300,38 @@ def far_file_case(ctx, case, rng, lv3, info, flat):
                  f'file {p!r} with data offset {new:#x} does not read back its bytes')
 
 
+def deep_case(ctx, case):
+    """a chain of `depth` nested directories with a file at the bottom: "any nesting depth" includes depths beyond what the
+    interpreter allows a recursive function (the packer and the comparison below run with a raised limit, the reader does not)"""
+    import sys
+    from pyctr.type.romfs import RomFSReader
+    depth = case['deep']
+    limit = sys.getrecursionlimit()
+    sys.setrecursionlimit(max(limit, 50 * depth + 1000))
+    try:
+        tree = {'f.bin': b'bottom'}
+        for i in range(depth):
+            tree = {'d%d' % (i % 7): tree, 'g': b'x' * (i % 3)} if i % 5 == 0 else {'d%d' % (i % 7): tree}
+        lv3, info = R.pack_lv3(tree)
+    finally:
+        sys.setrecursionlimit(limit)
+    ctx.stat('deep_chains')
+    path = '/' + '/'.join('d%d' % (i % 7) for i in reversed(range(depth))) + '/f.bin'
+    try:
+        r = RomFSReader(io.BytesIO(lv3), case_insensitive=case['ci'])
+        got = r.openbin(path).read()
+        size = r.getinfo(path, namespaces=['details']).size
+        n_dirs = sum(1 for _ in r.walk.dirs('/'))
+        r.close()
+        if got != b'bottom' or size != 6 or n_dirs != depth:
+            ctx.diff('oracle', 'romfs-deep', case, ('bottom', 6, depth), (got, size, n_dirs), f'a chain of {depth} nested directories is not reproduced')
+    except RecursionError:
+        ctx.diff('oracle', 'romfs-deep:RecursionError', case, 'the packed tree', 'RecursionError',
+                 f'a well-formed RomFS with {depth} nested directories cannot be opened: RecursionError (the directory walk recurses once per level)')
+    except Exception as ex:
+        ctx.diff('oracle', 'romfs-deep:' + pyenv.errname(ex), case, 'the packed tree', pyenv.errname(ex), f'a chain of {depth} nested directories: {pyenv.errname(ex)}')
+
+
 def exhaustive_small():
     """all trees with <= 4 nodes over a tiny alphabet x both header forms x both case modes"""
     def trees(n):
@@ -325,7 +363,10 @@ def run_cases(ctx, cases):
     try:
         for case in cases:
             ctx.case(case)
-            run_case(ctx, mr, case)
+            if case.get('deep'):
+                deep_case(ctx, case)
+            else:
+                run_case(ctx, mr, case)
     finally:
         mr.close()
 
@@ -333,6 +374,7 @@ def run_cases(ctx, cases):
 def run(ctx):
     proof = prove('C06', ['util', 'romfs'], ['C06_props'], static_deps=['Proofs/RomfsProofs.v', 'Proofs/RomfsRepProofs.v'])
     run_cases(ctx, (gen_case(ctx.rng) for _ in range(ctx.n(120, 4000))))
+    run_cases(ctx, [dict(deep=d, ci=bool(d % 2)) for d in ([40, 333, 1200, 2501] if ctx.quick() else [40, 333, 999, 1200, 2501, 5000, 20001])])
 
     def search():
         c2 = Ctx('C06', 'thorough', ctx.seed + 1)
